@@ -219,12 +219,13 @@ PROPS["C05"] = {
     "undecided": ["all import-rewriting paths of move.py", "behaviour for all projects"],
 }
 PROPS["C17"] = {
-    "sidecars": ["c17_assign.py", "c14_worder.py", "c17_writes.py"],
+    "sidecars": ["c17_assign.py", "c14_worder.py", "c17_writes.py", "c17_usefunction.py"],
     "level": "exploration",
     "claim": "Mostly bounded and behavioural (29 projects executed before and after the refactoring).  Deductive kernel: the read/write classification "
              "encapsulate-field relies on -- get_assignment_type reports only operators ending in '=' of 1-3 characters and never a comparison (==, <=, >=, !=) -- for "
              "every text, together with the word scanners it uses (C14 contracts)."
-             " Also proved: get_assignment_type exactly (shortest of the next 1-3 characters ending in '='), and _manage_writes closes a pending setter call exactly at the end of the assignment.",
+             " Also proved: get_assignment_type exactly (shortest of the next 1-3 characters ending in '='), and _manage_writes closes a pending setter call exactly at the end of the assignment; UseFunction._check_returns refuses exactly the functions with a yield, "
+             "several returns or a return that is not the last statement.",
     "note": "four of the five refactorings have no function-level contract within reach (they are compositions of occurrence finding, matching and text edits).",
     "undecided": ["behaviour preservation for all classes and all client modules"],
 }
